@@ -66,7 +66,9 @@ Section Check.
     if legalb cls p then
       let cs := moves cls p in             (* = expected (moves cls) (in_check cls) lab p, moves computed once *)
       tlabel_eqb (T ds w) (TL (expected_of (in_check cls p) (map lab cs))) &&
-      forallb (legalb cls) cs
+      forallb (wfb cls) cs                 (* successors are positions again; that the mover is not
+                                              left in check holds by definition of [moves]
+                                              (CheckerProofs.moves_mover_safe) *)
     else if wfb cls p then tlabel_eqb (T ds w) TNotFound
     else tlabel_eqb (T ds w) TUnrep.
 
